@@ -1,7 +1,8 @@
 SPECIFICATION Spec
 CONSTANTS
   SmallWidths = {1, 2, 3, 4, 5, 6, 7, 8}
-  BigWidths = {16, 32, 33, 64, 65, 128, 1024}
+  HexWidths = {9, 10, 11, 12}
+  BigWidths = {13, 15, 16, 17, 31, 32, 33, 63, 64, 65, 127, 128, 129, 1024}
   Exps = {0, 1, 2, 3, 4, 7, 8, 12, 15, 16, 17, 31, 32, 33, 62, 63, 64, 65, 127, 128, 512}
   PatWidth = 64
   HexA = {1, 7, 8, 15}
